@@ -27,9 +27,11 @@ Lemma flush_sim s b : R s b ->
   R (fst (G.flush h s)) (Buf.flush A cs b) /\
   map to_event (flushes A (Buf.flush A cs b)) = map to_event (flushes A b) ++ snd (G.flush h s).
 Proof.
-  intros [Ro Rr]. unfold G.flush, Buf.flush. destruct (rows A b) as [|r rs] eqn:E.
-  - cbn [length] in Rr. rewrite Rr. cbn [Z.of_nat Z.eqb negb fst snd]. rewrite app_nil_r. split; [split; [exact Ro|rewrite E; exact Rr]|reflexivity].
-  - cbn [length] in Rr. assert (G.buffer_row s =? 0 = false)%Z as -> by lia. cbn [negb fst snd app].
+  intros [Ro Rr]. unfold G.flush, Buf.flush. destruct (rows A b) as [|r rs] eqn:E; cbn [length] in Rr.
+  - (* whatever form the emptiness test takes in the source, it is decided by buffer_row = 0 *)
+    assert (Z0: (G.buffer_row s =? 0)%Z = true) by lia. rewrite ?Z0. cbn [negb fst snd app].
+    rewrite app_nil_r. split; [split; [exact Ro|rewrite E; exact Rr]|reflexivity].
+  - assert (Z0: (G.buffer_row s =? 0)%Z = false) by lia. rewrite ?Z0. cbn [negb fst snd app].
     unfold G.set_buffer_row, G.set_array_offset. cbn [G.array_offset G.buffer_row offset rows flushes length].
     split; [unfold R; cbn [G.array_offset G.buffer_row offset rows length]; split; lia|].
     rewrite map_app. cbn [map]. unfold to_event. cbn [fst snd]. rewrite Ro, Rr. reflexivity.
